@@ -172,7 +172,13 @@ pub fn single_run_msgs(path: &Path, tmp: &Path, tz: &str) -> Result<Vec<Msg>, St
         let ds = ds.trim_start_matches(|c| c == '\0' || c == '\n');
         let bar = ds.find('|').ok_or_else(|| format!("no datetime prefix in {:?}", &ds[..ds.len().min(60)]))?;
         let (secs, nanos) = ds[..bar].split_once('.').ok_or("bad datetime prefix")?;
-        let t = secs.parse::<i64>().map_err(|e| format!("{} in {:?}", e, &ds[..bar]))? * 1_000_000_000 + nanos.parse::<i64>().map_err(|e| e.to_string())?;
+        let secs = secs.parse::<i64>().map_err(|e| format!("{} in {:?}", e, &ds[..bar]))?;
+        if !(0..4_102_444_800).contains(&secs) {
+            // every generated and shipped record lies in 1970..2100; another value means the layout heuristic read the
+            // file as a different layout (by design a scoring heuristic, counted as a discard like in C08)
+            return Err(format!("discard: record time {} outside 1970..2100 (another layout detected) for {}", secs, path.display()));
+        }
+        let t = secs * 1_000_000_000 + nanos.parse::<i64>().map_err(|e| e.to_string())?;
         v.push(Msg { t, bytes: b, text: false });
     }
     Ok(v)
@@ -304,4 +310,13 @@ pub fn source_set(max_sources: usize, max_msgs: usize, allow_shipped: bool, tz_o
             v
         })
         .boxed()
+}
+
+/// outcome for a failed `materialize`: `discard:` errors are generator exclusions, everything else is infrastructure
+pub fn materialize_failed(e: String) -> crate::engine::Outcome {
+    if e.starts_with("discard: ") {
+        crate::engine::Outcome::discard("record source read as another layout (a record time outside 1970..2100)")
+    } else {
+        crate::engine::Outcome::inconclusive(e)
+    }
 }
